@@ -214,6 +214,9 @@ def p_constant_3(t):
     t[0] = t[1]
     if x86_afs.symb in t[1] and x86_afs.symb in t[3]:
         t[3][x86_afs.symb].update(t[1][x86_afs.symb])
+    if x86_afs.imm in t[1] and x86_afs.imm in t[3]:
+        # both sides carry a number: add them
+        t[3][x86_afs.imm] = t[1][x86_afs.imm] + t[3][x86_afs.imm]
     t[0].update(t[3])
 
 def p_constant_4(t):
